@@ -11,7 +11,7 @@
 #                                                     /repo/pkg/basictl, or its VERIF_EXTRA_OVERLAY replacement, is linked)
 #
 #   vg_inmodule_tools                      build tl2gen (through the overlay, so VERIF_EXTRA_OVERLAY reaches it) and unigen
-#   vg_inmodule_universe <level>           write $VERIF_SCRATCH/schema/u.tl
+#   vg_inmodule_universe <level> [funcs]   write $VERIF_SCRATCH/schema/u.tl (with "funcs": uni.FuncUniverse)
 #   vg_inmodule_generate <n> <cfg> <paths> generate Go code for the given schema paths with option set <cfg> under the name <n>
 #   vg_prepare_inmodule <level> <cfg>...   the three above for the universe, one generated tree per option set (name = cfg)
 #   vg_inmodule_overlay <pkgdir> <pkgname> between vb_overlay_begin and vb_overlay_end: add overlay entries for every file
@@ -32,8 +32,14 @@ vg_inmodule_tools() {
   sed -i "s#\"verifgen/uni\"#\"$VGI_MOD/uni\"#; s#\"exp/uni\"#\"$VGI_MOD/uni\"#" "$I"/drv/*.go
 }
 
+# vg_inmodule_universe <level> [funcs]: uni.Universe(level), or with "funcs" uni.FuncUniverse(level) (gen/cmd/unigenf)
 vg_inmodule_universe() {
-  "$VERIF_SCRATCH/unigen" -level "$1" -out "$VERIF_SCRATCH/schema/u.tl" >/dev/null || return 2
+  if [ "${2:-}" = funcs ]; then
+    (cd "$VG" && go build -o "$VERIF_SCRATCH/unigenf" ./cmd/unigenf) || { echo "HARNESS-ERROR: unigenf build failed" >&2; return 2; }
+    "$VERIF_SCRATCH/unigenf" -level "$1" -out "$VERIF_SCRATCH/schema/u.tl" >/dev/null || return 2
+  else
+    "$VERIF_SCRATCH/unigen" -level "$1" -out "$VERIF_SCRATCH/schema/u.tl" >/dev/null || return 2
+  fi
 }
 
 vg_inmodule_generate() {
